@@ -25,6 +25,7 @@ func genCrudCrashPlan(r *rand.Rand) *plan.Plan {
 	k := plan.Knobs{Sched: true, Procs: 2, PQS: &boolF}
 	p := &plan.Plan{Knobs: k, Params: map[string]any{"part": "crud", "fs_trace": true, "crash_mode": true}}
 	orgs := [][]int64{{0}, {0, 7}}[r.IntN(2)]
+	p.Knobs.Orgs = append([]int64(nil), orgs...)
 	var stores []string
 	for _, s := range fileBackedStores {
 		if r.IntN(2) == 0 {
